@@ -4,8 +4,9 @@
    The model's [find_member] returns the FIRST member with a key, so a schema object with a
    repeated key does not accept its own example ([example_dup_keys_refuted]); the library
    rejects such a schema at load time (error 402).  The theorems therefore carry the
-   hypothesis [keys_distinct w = true].  No hypothesis on nullable containers is needed:
-   the example of a nullable container is a container, not null. *)
+   hypothesis [keys_distinct w = true].  No hypothesis on nullable containers is needed (and
+   none ever was for the proofs below): the example of a nullable container is a container,
+   not null; since fix 3827ce7 [validate_iff_shape] is unconditional as well. *)
 From Coq Require Import List NArith Bool Arith Lia.
 From Coq Require Import Strings.Byte.
 Import ListNotations.
@@ -219,13 +220,14 @@ Qed.
 Theorem example_has_shape : forall optd w, keys_distinct w = true ->
   shape_ok (compile optd w) (example_value w) = true.
 Proof.
-  intros optd w Hd. apply validate_shape_disagree_only_nullable. apply self_valid_all. exact Hd.
+  intros optd w Hd. apply validate_iff_shape. apply self_valid_all. exact Hd.
 Qed.
 
+(* the former statement carried [no_nullable_container (compile optd w) = true]; it was never
+   used, so [self_valid] is now the same statement as [self_valid_all] *)
 Theorem self_valid : forall optd w, keys_distinct w = true ->
-  no_nullable_container (compile optd w) = true ->
   validate (compile optd w) (example_value w) = None.
-Proof. intros optd w Hd _. apply self_valid_all. exact Hd. Qed.
+Proof. exact self_valid_all. Qed.
 
 Print Assumptions self_valid_all.
 Print Assumptions example_has_shape.
